@@ -408,17 +408,17 @@ func (v *VecDense) AddVec(a, b Vector) {
 	aU, _ := untransposeExtract(a)
 	bU, _ := untransposeExtract(b)
 
+	if arv, ok := aU.(*VecDense); ok && v != a {
+		v.checkOverlap(arv.mat)
+	}
+	if brv, ok := bU.(*VecDense); ok && v != b {
+		v.checkOverlap(brv.mat)
+	}
+
 	if arv, ok := aU.(*VecDense); ok {
 		if brv, ok := bU.(*VecDense); ok {
 			amat := arv.mat
 			bmat := brv.mat
-
-			if v != a {
-				v.checkOverlap(amat)
-			}
-			if v != b {
-				v.checkOverlap(bmat)
-			}
 
 			if v.mat.Inc == 1 && amat.Inc == 1 && bmat.Inc == 1 {
 				// Fast path for a common case.
@@ -451,17 +451,17 @@ func (v *VecDense) SubVec(a, b Vector) {
 	aU, _ := untransposeExtract(a)
 	bU, _ := untransposeExtract(b)
 
+	if arv, ok := aU.(*VecDense); ok && v != a {
+		v.checkOverlap(arv.mat)
+	}
+	if brv, ok := bU.(*VecDense); ok && v != b {
+		v.checkOverlap(brv.mat)
+	}
+
 	if arv, ok := aU.(*VecDense); ok {
 		if brv, ok := bU.(*VecDense); ok {
 			amat := arv.mat
 			bmat := brv.mat
-
-			if v != a {
-				v.checkOverlap(amat)
-			}
-			if v != b {
-				v.checkOverlap(bmat)
-			}
 
 			if v.mat.Inc == 1 && amat.Inc == 1 && bmat.Inc == 1 {
 				// Fast path for a common case.
@@ -495,17 +495,17 @@ func (v *VecDense) MulElemVec(a, b Vector) {
 	aU, _ := untransposeExtract(a)
 	bU, _ := untransposeExtract(b)
 
+	if arv, ok := aU.(*VecDense); ok && v != a {
+		v.checkOverlap(arv.mat)
+	}
+	if brv, ok := bU.(*VecDense); ok && v != b {
+		v.checkOverlap(brv.mat)
+	}
+
 	if arv, ok := aU.(*VecDense); ok {
 		if brv, ok := bU.(*VecDense); ok {
 			amat := arv.mat
 			bmat := brv.mat
-
-			if v != a {
-				v.checkOverlap(amat)
-			}
-			if v != b {
-				v.checkOverlap(bmat)
-			}
 
 			if v.mat.Inc == 1 && amat.Inc == 1 && bmat.Inc == 1 {
 				// Fast path for a common case.
@@ -544,17 +544,17 @@ func (v *VecDense) DivElemVec(a, b Vector) {
 	aU, _ := untransposeExtract(a)
 	bU, _ := untransposeExtract(b)
 
+	if arv, ok := aU.(*VecDense); ok && v != a {
+		v.checkOverlap(arv.mat)
+	}
+	if brv, ok := bU.(*VecDense); ok && v != b {
+		v.checkOverlap(brv.mat)
+	}
+
 	if arv, ok := aU.(*VecDense); ok {
 		if brv, ok := bU.(*VecDense); ok {
 			amat := arv.mat
 			bmat := brv.mat
-
-			if v != a {
-				v.checkOverlap(amat)
-			}
-			if v != b {
-				v.checkOverlap(bmat)
-			}
 
 			if v.mat.Inc == 1 && amat.Inc == 1 && bmat.Inc == 1 {
 				// Fast path for a common case.
